@@ -143,4 +143,130 @@ def getIC {ρ : Type} (backend : α → List α → List ρ) (Ts gs : List α) :
 
 end dispatch
 
+/-! ### `GeneralThermodynamics._getDrivingForceCurvature` (Thermodynamics.py): the ORDER OF THE SOLUTES
+(round 5 addition).  The user lists the solutes in any order (`['NI','CR','AL']`), pycalphad works in alphabetical
+order; `sortIndices = np.argsort(self.elements[1:-1])`, `x[sortIndices]` is the composition in alphabetical order.
+The curvature formula needs the alphabetical order; the fallback `_getDrivingForceSampling` (taken when no two-phase
+equilibrium exists: `cs_results is None`) takes the composition in the USER's order and does its own bookkeeping.
+Compositions are index functions, `s` is `sortIndices`. -/
+
+section solute_order
+variable {α ρ : Type}
+
+/-- `x[sortIndices]` -/
+def reorder (s : Nat → Nat) (x : Nat → α) : Nat → α := fun i => x (s i)
+
+/-- which function receives which composition: `twoPhase` = `cs_results is not None`, `fallback` =
+`_getDrivingForceSampling` (user's order), `curv` = the curvature formula (alphabetical order) -/
+def dfCurvature (twoPhase : Bool) (fallback curv : (Nat → α) → ρ) (s : Nat → Nat) (x : Nat → α) : ρ :=
+  if twoPhase then curv (reorder s x) else fallback x
+
+/-- NOT the code: the variant that sorts the composition before the fallback is decided -/
+def dfCurvatureSortedFirst (twoPhase : Bool) (fallback curv : (Nat → α) → ρ) (s : Nat → Nat) (x : Nat → α) : ρ :=
+  let xs := reorder s x
+  if twoPhase then curv xs else fallback xs
+
+end solute_order
+
 end KawinV.IC
+
+/-! ### `NucleationBarrierParameters` (kawin/precipitation/parameters/Nucleation.py): settings, lazily cached factors and
+their invalidation (round 5 addition).
+
+Settings: `gamma`, `gbEnergy`, `description` (site type, a `Nat` id here).  Caches: `_GBk` and the four factors
+`_areaFactor`, `_volumeFactor`, `_gbRemoval`, `_areaRemoval`.  A getter returns the cached value if there is one; otherwise
+it evaluates `GBk` (cached the same way, `gbEnergy / (2 gamma)`), raises the `ValueError` of `_validateGBk` unless
+`GBk < maxRatio(site)`, computes the factor from the description and caches it.  Which caches a setter clears is the
+table `clears` (REGENERATED from the real class: `KawinV.Gen.C12.fclears`).  The factor formulas are a parameter
+`F site factor k` (the Clemm-Fisher formulas are C14's subject); `ρ` is the type of factor values, so the driver can run
+the model with "provenance" values (site, k) and the harness checks the returned number against the real description
+evaluated at exactly that (site, k). -/
+namespace KawinV.NucHist
+open KawinV.Gen.C12 (Fac CacheId FSetter)
+
+structure Settings (α : Type) where
+  gamma : α
+  gb : α
+  site : Nat
+
+structure Obj (α ρ : Type) where
+  s : Settings α
+  k : Option α
+  fac : Fac → Option ρ
+
+/-- a newly constructed object (`__init__` ends with `_resetFactors()`) -/
+def fresh {α ρ : Type} (s : Settings α) : Obj α ρ := ⟨s, none, fun _ => none⟩
+
+/-- what a setter does to the caches, by the table -/
+def clearBy {α ρ : Type} (clears : FSetter → CacheId → Bool) (st : FSetter) (o : Obj α ρ) : Obj α ρ :=
+  { o with k := if clears st .k then none else o.k,
+           fac := fun f => if clears st (.fac f) then none else o.fac f }
+
+inductive Op (α : Type) where
+  | setGamma (v : α)
+  | setGb (v : α)
+  | setSite (d : Nat)
+  | getK
+  | get (f : Fac)
+
+section ops
+variable {α ρ : Type} [Mul α] [Div α] [OfNat α 2] [LT α] [DecidableLT α]
+
+/-- `description.gbRatio(gbEnergy, gamma)` -/
+def ratio (s : Settings α) : α := s.gb / (2 * s.gamma)
+
+/-- property `GBk` -/
+def getK (o : Obj α ρ) : α × Obj α ρ :=
+  match o.k with
+  | some v => (v, o)
+  | none => (ratio o.s, { o with k := some (ratio o.s) })
+
+/-- `_validateGBk` passes -/
+def validK (maxR : Nat → α) (site : Nat) (k : α) : Bool := decide (k < maxR site)
+
+/-- a factor property; `none` = the `ValueError` of `_validateGBk` (the ratio stays cached) -/
+def get (F : Nat → Fac → α → ρ) (maxR : Nat → α) (o : Obj α ρ) (f : Fac) : Option ρ × Obj α ρ :=
+  match o.fac f with
+  | some v => (some v, o)
+  | none =>
+    let r := getK o
+    if validK maxR o.s.site r.1 then
+      (some (F o.s.site f r.1), { r.2 with fac := fun g => if g = f then some (F o.s.site f r.1) else r.2.fac g })
+    else (none, r.2)
+
+/-- what an operation answers: a ratio, a factor, the ValueError, or nothing (setter) -/
+inductive Out (α ρ : Type) where
+  | nothing
+  | ratio (k : α)
+  | factor (v : ρ)
+  | error
+
+def stepOut (clears : FSetter → CacheId → Bool) (F : Nat → Fac → α → ρ) (maxR : Nat → α) (o : Obj α ρ) :
+    Op α → Obj α ρ × Out α ρ
+  | .setGamma v => (clearBy clears .gamma { o with s := { o.s with gamma := v } }, .nothing)
+  | .setGb v => (clearBy clears .gbEnergy { o with s := { o.s with gb := v } }, .nothing)
+  | .setSite d => (clearBy clears .description { o with s := { o.s with site := d } }, .nothing)
+  | .getK => let r := getK o; (r.2, .ratio r.1)
+  | .get f => let r := get F maxR o f; (r.2, match r.1 with | some v => .factor v | none => .error)
+
+def step (clears : FSetter → CacheId → Bool) (F : Nat → Fac → α → ρ) (maxR : Nat → α) (o : Obj α ρ) (op : Op α) : Obj α ρ :=
+  (stepOut clears F maxR o op).1
+
+/-- the object after a history -/
+def run (clears : FSetter → CacheId → Bool) (F : Nat → Fac → α → ρ) (maxR : Nat → α) (ops : List (Op α)) (o : Obj α ρ) : Obj α ρ :=
+  ops.foldl (step clears F maxR) o
+
+/-- the answers of a history, in order (setters answer `.nothing`) -/
+def runOut (clears : FSetter → CacheId → Bool) (F : Nat → Fac → α → ρ) (maxR : Nat → α) : List (Op α) → Obj α ρ → List (Out α ρ)
+  | [], _ => []
+  | op :: rest, o => let r := stepOut clears F maxR o op; r.2 :: runOut clears F maxR rest r.1
+
+end ops
+
+/-- NOT the code: the table in which the `gbEnergy` setter clears the cached ratio only -/
+def clearsRatioOnly : FSetter → CacheId → Bool
+  | .gbEnergy, .k => true
+  | .gbEnergy, .fac _ => false
+  | _, _ => true
+
+end KawinV.NucHist
